@@ -16,7 +16,7 @@
 From Coq Require Import List NArith Bool.
 From SK Require Import lib.Tok lib.LGraph lib.Mono lib.Reach model.C07_Model model.C07_MCCS
   proof.C07_Spec proof.C07_History proof.C07_Filters proof.C07_Main proof.C07_WL proof.C07_Relabel proof.C07_Final proof.C07_Extra proof.C07_Final2
-  proof.C07_Entry proof.C07_MCCS proof.C07_Sym proof.C07_Cache proof.C07_More.
+  proof.C07_Entry proof.C07_MCCS proof.C07_Sym proof.C07_Cache proof.C07_More proof.C07_QPF.
 Import ListNotations.
 
 (** the premises are satisfiable, and the instances the correspondence run evaluates ([run] = [run_from has_mono (monos_g true)])
@@ -71,6 +71,19 @@ Theorem C07_symmetric :
     fst (isomorphic vf2b e i (gnth gs i) j (gnth gs j) c) = fst (isomorphic vf2b e j (gnth gs j) i (gnth gs i) c').
 Proof. exact symmetric. Qed.
 Print Assumptions C07_symmetric.
+
+(** (2b, full strength — round 5) symmetric whenever the two graphs carry the same TOTAL hydrogen count ([sum_hc], absent = 0): a graph
+    and any relabelled copy, isomers, graphs without annotations, ... — not only graphs whose counts all equal one constant (C07_symmetric
+    above is the special case: for equal orders constant counts give equal totals, for different orders both verdicts are False).
+    A label-preserving bijection with hcount(pattern) <= hcount(host) everywhere and equal totals has equality everywhere, so its
+    inverse is an isomorphism in the other direction.  Example ex_symmetric_sum: CH3-OH vs CH2-O (totals 4 and 2) is not symmetric. *)
+Theorem C07_symmetric_equal_totals :
+  forall vf2b, vf2b_contract vf2b ->
+  forall gs e i j c c', cache_inv gs c -> cache_inv gs c' -> gwf (gnth gs i) -> gwf (gnth gs j) ->
+    sum_hc (gnth gs i) = sum_hc (gnth gs j) ->
+    fst (isomorphic vf2b e i (gnth gs i) j (gnth gs j) c) = fst (isomorphic vf2b e j (gnth gs j) i (gnth gs i) c').
+Proof. exact symmetric_sum. Qed.
+Print Assumptions C07_symmetric_equal_totals.
 
 (** (3) the boolean subgraph test (SubgraphMatch.subgraph_isomorphism / is_subgraph / graph_morphism.subgraph_isomorphism) is the
     definition of induced (induced = true) resp. monomorphic (induced = false) containment of child in parent,
@@ -562,3 +575,32 @@ Theorem C07_heuristics_mccs :
      if Nat.eqb (n_nodes m) 0 then Some m else hmccs vf2b names defaults eattr done (m :: g3 :: r)).
 Proof. exact hmccs_spec. Qed.
 Print Assumptions C07_heuristics_mccs.
+
+(** ---------------------------------------------------------------- round 5: the third anchored pre-filter, SubgraphSearchEngine._quick_pre_filter
+    ([quick_pre_filter]; [find_all na ea thr pf H P] = find_subgraph_mappings(strategy="all", threshold=thr, pre_filter=pf)).
+
+    (6, REFUTED for this pre-filter) "turning any cheap pre-filter on or off never changes a result set" does NOT hold for it: its
+    estimate guard (product of candidate counts > threshold * 1e4) empties results that exist.  Witness: a chain of 6 carbon atoms in a
+    chain of 12, element + order, threshold 20: 14 monomorphisms without the pre-filter, [] with it.  Documented behaviour of
+    find_subgraph_mappings ("Empty if none or if any guard (pre-filter or enumeration) exceeds the threshold"), kept as it is:
+    known finding C07:quick_pre_filter:estimate-guard:chain6-in-chain12 (known_findings.d/C07.json), replayed on the implementation by
+    regress case corpus/regress/C07/qpf.json. *)
+Theorem C07_quick_pre_filter_refuted : exists na ea thr H P, gwf H /\ gwf P /\
+  find_all na ea thr false H P <> [] /\ find_all na ea thr true H P = [].
+Proof. exact quick_pre_filter_refuted. Qed.
+Print Assumptions C07_quick_pre_filter_refuted.
+
+(** what DOES hold for all inputs: the pre-filter only ever empties a result ... *)
+Theorem C07_quick_pre_filter_only_empties :
+  forall na ea thr H P, find_all na ea thr true H P = find_all na ea thr false H P \/ find_all na ea thr true H P = [].
+Proof. exact quick_pre_filter_only_empties. Qed.
+Print Assumptions C07_quick_pre_filter_only_empties.
+
+(** ... and it changes NOTHING whenever the estimate guard does not decide ([qpf_guard] = false): the only other reason for
+    _quick_pre_filter to say "skip" is a pattern node without any candidate (selected attributes equal, hcount host >= pattern, degree
+    host >= pattern), and then no monomorphism exists — a monomorphism cannot lower a degree *)
+Theorem C07_quick_pre_filter_transparent_below_guard :
+  forall na ea thr H P, gwf H -> gwf P ->
+    qpf_guard na H P thr (node_ids P) 1 = false -> find_all na ea thr true H P = find_all na ea thr false H P.
+Proof. exact quick_pre_filter_transparent_below_guard. Qed.
+Print Assumptions C07_quick_pre_filter_transparent_below_guard.
